@@ -11,7 +11,8 @@
 From Coq Require Import ZArith List String Bool.
 From Gigue Require Import Types Bits Isa Enc GenTables Builder BuilderTies Samplers Generator Machine MachineLemmas
   SplitProofs FragProofs GenLemmas ImageSem CtorSpec C12Defs C12Proofs GenWF GenWFProps
-  BodyExec FrameExec CodeMem GenWF5 GenWF6 CallFrame MethodContract CallFrameRimi MethodContractRimi Witness.
+  BodyExec FrameExec CodeMem GenWF5 GenWF6 CallFrame MethodContract CallFrameRimi MethodContractRimi SaveRestore TrampExec TrampsInv TrampStubs WholeImage Loader
+  WholeImageRimi LoaderRimi Witness LoaderWitness LoaderWitnessRimi.
 Import ListNotations.
 Open Scope Z_scope.
 
@@ -80,6 +81,28 @@ Theorem C09_return_target_is_shadow_slot_partial : forall v L,
     mem s' = mem s /\ dom s' = dom s /\ cfi s' = cfi s.
 Proof. exact rimi_call_epi_exec. Qed.
 
+(* PROVED (Layer B), RIMI shadow-stack variant, WHOLE IMAGE over the emitted files
+   (LoaderRimi.rimiss_image_from_files): from ImageSem.Init - t3 at the top of the
+   emitted shadow-stack image - and for call chains within its capacity
+   (SSmax img <= |ss.bin|), the whole run (interpreter loop, trampolines, PIC
+   dispatch, every method with its callees) ends at the halt address with t3 BACK AT
+   ITS ENTRY VALUE (`rget s' 28 = ss_hi L`), every shadow push / pop inside the
+   window [ss_hi - SSmax, ss_hi) of the emitted image (a shadow access outside the
+   shadow region is a machine fault; none occurs), and no JIT return address on
+   the main stack (C09_no_ra_on_main_stack). *)
+Theorem C09_rimiss_whole_image : forall c script img,
+  successful c script img -> c_variant c = GRimiSS -> c_data_reg c <> 6 ->
+  forall L s0, Init c img (rNtot c img) L s0 -> code_lo L = int_start_al c ->
+    code_hi L - code_lo L < 2147483648 - 2048 -> pics_encodable img ->
+    SSmax img <= zlen (im_ss img) ->
+    (forall r o, In (r, o) int_slots -> 0 <= rget s0 r < W64) ->
+    exists s' eh, map fst eh = im_elements img /\ Forall (fun x => rhit_ok (fst x) (snd x)) eh /\
+      run (gv c) L (rimage_steps img eh) s0 = (Next s', rimage_steps img eh) /\ pc s' = halt_at L /\
+      (forall r, 0 <= r -> wr c r = false -> ~ rclob c r -> rget s' r = rget s0 r) /\
+      rget s' 28 = ss_hi L /\
+      rmem_frame c L s0 s' (stk_hi L - rNtot c img) (stk_hi L) (ss_hi L - SSmax img) (ss_hi L) /\ dom s' = 0 /\ cfi s' = [].
+Proof. exact rimiss_image_from_files. Qed.
+
 Theorem C09_nonvacuous :
   (exists img, successful wcfg_rimiss wscript_rimiss img) /\ (exists img, successful wcfg_rimifull wscript_rimifull img).
 Proof. exact (conj witness_rimiss witness_rimifull). Qed.
@@ -123,6 +146,7 @@ Proof. exact method_base_call_reaches. Qed.
 Print Assumptions C09_no_ra_on_main_stack.
 Print Assumptions C09_every_rimi_method_contract_partial.
 Print Assumptions C09_return_target_is_shadow_slot_partial.
+Print Assumptions C09_rimiss_whole_image.
 Print Assumptions C09_nonvacuous.
 Print Assumptions C09_shadow_discipline_partial.
 Print Assumptions C09_registers_reserved_partial.
